@@ -213,7 +213,7 @@ func runProperty(repo, verif, cmd, id, tier string, verbose bool, filter string,
 	if timeoutFlag > 0 {
 		timeoutS = timeoutFlag
 	}
-	outDir := filepath.Join(verif, "out", id)
+	outDir := filepath.Join(envOr("VERIF_OUT", filepath.Join(verif, "out")), id)
 	_ = os.RemoveAll(outDir)
 	jobs := e.solveAll(outDir, results, timeoutS, all, 16)
 	tSolve := time.Since(t0).Seconds() - tLoad - tGen
@@ -419,7 +419,7 @@ type replayInfo struct {
 }
 
 func writeReplay(verif, id string, j *job, e *Engine) replayInfo {
-	dir := filepath.Join(verif, "out", id, "replay")
+	dir := filepath.Join(envOr("VERIF_OUT", filepath.Join(verif, "out")), id, "replay")
 	_ = os.MkdirAll(dir, 0o755)
 	name := sanitize(j.fr.Key + "__" + j.o.Name)
 	if len(name) > 150 {
